@@ -578,7 +578,15 @@ def answer(rep, ex: Explorer, cls=CI, state_rule=True):
             rep.check(ok_items, "C.relations", f"{site}:{main[0].node.lineno}", "constraint system", "the satisfiability test is asked over the base constraints together with the query constraints",
                       extracted=str(sorted(map(str, fams))), required="base CSP ∪ query CSP", function=site)
             pr = returned_bool(None, rv)
-            rep.check(pr == ("not", ("sat", main[0].qid)), "C.relations", site, "answer polarity", "entailed exactly when base ∪ query constraints are unsatisfiable", extracted=show_pred(pr), required="¬SAT", function=site)
+            d_sat = decided(p, ("sat", main[0].qid))
+            if pr[0] == "const" and d_sat is not None:
+                # the test was branched on and each branch returns a constant: the constant must be the negated verdict
+                okp = bool(pr[1]) == (not d_sat)
+                shown = f"{bool(pr[1])} when the test says {'satisfiable' if d_sat else 'unsatisfiable'}"
+            else:
+                okp = pr == ("not", ("sat", main[0].qid))
+                shown = show_pred(pr)
+            rep.check(okp, "C.relations", site, "answer polarity", "entailed exactly when base ∪ query constraints are unsatisfiable", extracted=shown, required="¬SAT", function=site)
         else:
             rep.violation("C.relations", site, "constraint system", "the answer is one satisfiability test of base ∪ query constraints", extracted=f"{len(main)} tests", required="1", function=site)
     rep.floor("c-inference answer paths", n, 2)
